@@ -33,7 +33,8 @@ func sqlLexMode(s string, tolerant bool) []sqlTok {
 			i++
 		case unicode.IsLetter(c) || c == '_':
 			j := i
-			for j < len(rs) && (unicode.IsLetter(rs[j]) || unicode.IsDigit(rs[j]) || rs[j] == '_') {
+			for j < len(rs) && (unicode.IsLetter(rs[j]) || unicode.IsDigit(rs[j]) || rs[j] == '_' ||
+				(rs[j] == '.' && j+1 < len(rs) && unicode.IsLetter(rs[j+1]) && strings.EqualFold(string(rs[i:j]), "excluded"))) {
 				j++
 			}
 			out = append(out, sqlTok{"id", strings.ToLower(string(rs[i:j]))})
@@ -86,6 +87,7 @@ type sqlParser struct {
 	args    []string // Lean terms for ?1, ?2, …; "\x00" marks an argument that is named by its role in the statement
 	nextPar int
 	src     string
+	excluded map[string]string // in a conflict arm: column -> the expression the VALUES list gives it (`excluded.<col>`)
 	role    string         // role of the placeholder being parsed: "<col>" in VALUES / SET, "where.<col>" in `col = ?`
 	names   map[int]string // role names given so far
 }
@@ -300,6 +302,15 @@ func (p *sqlParser) prim() string {
 		if c, ok := sqlCols[t.text]; ok {
 			return fmt.Sprintf("(.col %s)", c)
 		}
+		if strings.HasPrefix(t.text, "excluded.") {
+			if c, ok := sqlCols[strings.TrimPrefix(t.text, "excluded.")]; ok {
+				if v, ok := p.excluded[c]; ok {
+					return v
+				}
+				// a column the VALUES list does not mention: its default; the tie lemma fails on this rather than guess
+				fail("sql: excluded.%s is not in the VALUES list of %q", c, p.src)
+			}
+		}
 	}
 	fail("sql: unexpected token %v in %q", t, p.src)
 	return ""
@@ -379,6 +390,10 @@ func (p *sqlParser) statement() (string, string) {
 			fail("sql: %d columns, %d values in %q", len(cols), len(vals), p.src)
 		}
 		conflict := "none"
+		p.excluded = map[string]string{}
+		for i, c := range cols {
+			p.excluded[c] = vals[i]
+		}
 		if p.isKw("on") {
 			p.pos++
 			p.expectKw("conflict")
